@@ -320,7 +320,7 @@ def run(ctx):
     ]
     ctx.safe_regenerate(regenerate)
     try:
-        ctx.prove(PROP)
+        ctx.prove(PROP, extra_targets=['theories/C17/Corr.vo'])
         proof_ok = True
     except CoqFailure as e:
         proof_ok, proof_err = False, e
